@@ -356,7 +356,7 @@ class QCow2Snapshot:
 
         # Older versions may not have all the extra data fields
         # Instead of reading them manually, just pad the extra data to fit our struct
-        extra_data = self.qcow2.fh.read(self.header.extra_data_size)
+        extra_data = self.qcow2.fh.read(min(self.header.extra_data_size, len(c_qcow2.QCowSnapshotExtraData)))
         self.extra = c_qcow2.QCowSnapshotExtraData(extra_data.ljust(len(c_qcow2.QCowSnapshotExtraData), b"\x00"))
 
         unknown_extra_size = self.header.extra_data_size - len(c_qcow2.QCowSnapshotExtraData)
